@@ -20,7 +20,7 @@ var ghostBuiltins = map[string]bool{
 	"implies": true, "iff": true, "forall": true, "exists": true, "old": true, "has": true,
 	"lo": true, "hi": true, "at": true, "held": true, "typeIs": true, "gint": true, "allocated": true,
 	"sameArray": true, "refOf": true, "nonNil": true, "dynRef": true, "before": true,
-	"glen": true, "gentry": true, "gfield": true, "gfieldS": true, "mulGE": true, "ptrAt": true, "sliceRef": true, "elemAt": true, "smHas": true, "smIs": true, "smGet": true, "gclock": true, "chanRef": true, "timeNanos": true, "mapRef": true, "live": true,
+	"glen": true, "gentry": true, "gfield": true, "gfieldS": true, "mulGE": true, "ptrAt": true, "sliceRef": true, "elemAt": true, "smHas": true, "smIs": true, "smGet": true, "gclock": true, "chanRef": true, "timeNanos": true, "mapRef": true, "live": true, "gsHas": true, "gsCard": true, "gsOnly": true, "gsSame": true, "gsIsAdd": true, "gsIsRemove": true, "gsOthersSame": true,
 }
 
 func (x *Exec) isGhostBuiltin(fn *ssa.Function) bool {
@@ -102,6 +102,10 @@ func (x *Exec) callCommon(f *frame, c *ssa.CallCommon, args []*Val, st *State, p
 
 func (x *Exec) inModule(fn *ssa.Function) bool {
 	r := rootFn(fn)
+	// generated accessors (Get*) of packages declared with srcpkg
+	if r.Pkg != nil && x.P.getterPkgs[r.Pkg.Pkg.Path()] && strings.HasPrefix(fn.Name(), "Get") && len(fn.Blocks) > 0 && !hasLoops(fn) {
+		return true
+	}
 	if r.Pkg == nil {
 		if o := r.Origin(); o != nil && o.Pkg != nil {
 			return strings.HasPrefix(o.Pkg.Pkg.Path(), x.P.modPath)
@@ -304,7 +308,19 @@ func (x *Exec) ghost(name string, fn *ssa.Function, args []*Val, st *State, pos 
 			p := cl.Signature.Params().At(i)
 			srt, ok := x.scalarSort(p.Type())
 			if !ok {
-				panic(unsupported("quantified variable of type %s", p.Type()))
+				// a struct of scalars: one bound variable per leaf
+				if _, isStruct := p.Type().Underlying().(*types.Struct); !isStruct {
+					panic(unsupported("quantified variable of type %s", p.Type()))
+				}
+				var names []string
+				for _, l := range x.leaves(p.Type()) {
+					n := x.sc.fresh("q_" + p.Name())
+					decls = append(decls, "("+n+" "+l.Sort+")")
+					names = append(names, n)
+				}
+				bv, _ := x.unflatten(p.Type(), names)
+				bound = append(bound, bv)
+				continue
 			}
 			n := x.sc.fresh("q_" + p.Name())
 			decls = append(decls, "("+n+" "+srt+")")
@@ -443,6 +459,80 @@ func (x *Exec) ghost(name string, fn *ssa.Function, args []*Val, st *State, pos 
 			}
 			return x.load(st, &Ptr{Kind: PHeap, Ref: ref, Root: t})
 		}
+	case "gsIsAdd", "gsIsRemove":
+		// exact two-state relations: the set of obj is the old one with v added / removed (and the
+		// cardinality moved accordingly)
+		if x.oldState == nil {
+			panic(unsupported("%s outside a two-state context", name))
+		}
+		fam := x.strOf(args[0].S)
+		g := x.gsGet(st, fam)
+		o := x.gsGet(x.oldState, fam)
+		obj := args[1].S
+		if x.sc.bvMode {
+			x.sc.bridge[64] = true
+			obj = "(nat64 " + obj + ")"
+		}
+		tag, pay := x.gsKey(st, args[2])
+		inner := sel(o.has, obj)
+		was := sel(sel(inner, tag), pay)
+		val, nc := "true", ite(was, sel(o.card, obj), "(+ "+sel(o.card, obj)+" 1)")
+		if name == "gsIsRemove" {
+			val, nc = "false", ite(was, "(- "+sel(o.card, obj)+" 1)", sel(o.card, obj))
+		}
+		return scalar(boolT, and(eq(sel(g.has, obj), sto(inner, tag, sto(sel(inner, tag), pay, val))), eq(sel(g.card, obj), nc)), "Bool")
+	case "gsSame", "gsOthersSame":
+		// two-state frame conditions on ghost sets: gsSame(family, obj): the set of obj is what it
+		// was in the old state; gsOthersSame(family, a, b): so are the sets of all other objects
+		// that existed then.
+		if x.oldState == nil {
+			panic(unsupported("%s outside a two-state context", name))
+		}
+		fam := x.strOf(args[0].S)
+		g := x.gsGet(st, fam)
+		o := x.gsGet(x.oldState, fam)
+		conv := func(t string) string {
+			if x.sc.bvMode {
+				x.sc.bridge[64] = true
+				return "(nat64 " + t + ")"
+			}
+			return t
+		}
+		if name == "gsSame" {
+			obj := conv(args[1].S)
+			return scalar(boolT, and(eq(sel(g.has, obj), sel(o.has, obj)), eq(sel(g.card, obj), sel(o.card, obj))), "Bool")
+		}
+		a, b := conv(args[1].S), conv(args[2].S)
+		v := x.sc.fresh("go")
+		x.sc.binder++
+		body := fmt.Sprintf("(forall ((%s Int)) (=> (and (<= %s %s) (not (= %s %s)) (not (= %s %s))) (and (= (select %s %s) (select %s %s)) (= (select %s %s) (select %s %s)))))",
+			v, v, x.oldState.allocTop, v, a, v, b, g.has, v, o.has, v, g.card, v, o.card, v)
+		x.sc.binder--
+		return scalar(boolT, body, "Bool")
+	case "gsHas", "gsCard", "gsOnly":
+		// ghost sets of interface values attached to object identities (gset.go):
+		// gsHas(family, obj, v any), gsCard(family, obj), gsOnly[T](family, obj)
+		fam := x.strOf(args[0].S)
+		obj := args[1].S
+		if x.sc.bvMode {
+			x.sc.bridge[64] = true
+			obj = "(nat64 " + obj + ")"
+		}
+		g := x.gsGet(st, fam)
+		switch name {
+		case "gsCard":
+			return scalar(types.Typ[types.Int], x.intAsGo(sel(g.card, obj)), I)
+		case "gsOnly":
+			targs := fn.TypeArgs()
+			t := x.sc.fresh("gt")
+			p := x.sc.fresh("gp")
+			x.sc.binder++
+			body := fmt.Sprintf("(forall ((%s Int) (%s %s)) (=> (select (select (select %s %s) %s) %s) (= %s %s)))", t, p, bvSort(gsBits), g.has, obj, t, p, t, x.tagOf(targs[len(targs)-1]))
+			x.sc.binder--
+			return scalar(boolT, body, "Bool")
+		}
+		tag, pay := x.gsKey(st, args[2])
+		return scalar(boolT, sel(sel(sel(g.has, obj), tag), pay), "Bool")
 	case "live":
 		// the object exists now (its identity is not above the current allocation top)
 		return scalar(boolT, "(<= "+x.refTerm(st, args[0])+" "+st.allocTop+")", "Bool")
@@ -1198,3 +1288,4 @@ func (x *Exec) logTopBefore(st *State) string {
 	}
 	return x.top0
 }
+
